@@ -37,7 +37,8 @@ var (
 	c13Locals4   = []string{"", "10.0.0.1", "10.0.0.9"}
 	c13Locals6   = []string{"", "2001:db8::100", "2001:db8::200"}
 	c13Srcs      = []string{"10.0.1.1", "10.0.1.2", "2001:db8::1", "2001:db8::2", "10.0.1.77", "2001:db8::77", "10.0.0.1"}
-	c13Dsts      = []string{"10.0.0.1", "10.0.0.9", "2001:db8::100", "2001:db8::200"}
+	// (10.0.0.10, 10.0.0.100 and 2001:db8::1000 begin like configured local addresses)
+	c13Dsts = []string{"10.0.0.1", "10.0.0.9", "2001:db8::100", "2001:db8::200", "10.0.0.10", "10.0.0.100", "2001:db8::1000"}
 	// helddown: NOTIFICATION received in OpenSent; -hdr: bad header sent by the remote in
 	// OpenConfirm; -fsm: a second OPEN in Established; -again: held down, quiet for more
 	// than 300 s, then a second protocol error; -7: NOTIFICATION with a code above Cease;
